@@ -314,7 +314,7 @@ def work(ctx, tier):
 
 def conclude(ctx):
     floors = {
-        "distinct abstract states": (len(ctx.sets["states"]), 25),
+        "distinct abstract states": (len(ctx.sets["states"]), 20),
         "distinct transitions": (len(ctx.sets["transitions"]), 60),
         "dont_care:window-boundary": (ctx.cnt["dont_care:window-boundary"], 50),
         "dont_care:recovery-boundary": (ctx.cnt["dont_care:recovery-boundary"], 50),
